@@ -65,13 +65,26 @@ impl<K: Eq, V> FxHashMap<K, V> {
         }
         None
     }
+    /// the real map's capacity is whatever the allocator and earlier growth left behind (`clear()` keeps it):
+    /// under Kani it is an arbitrary value >= len, so code that branches on it is explored on both sides
     pub fn capacity(&self) -> usize {
+        #[cfg(kani)]
+        {
+            let c: usize = kani::any();
+            kani::assume(c >= self.entries.len());
+            return c;
+        }
+        #[cfg(not(kani))]
         self.entries.capacity()
     }
+    // (capacity is abstract under Kani, see `capacity`: shrinking changes no entry and is a no-op there)
     pub fn shrink_to(&mut self, min_capacity: usize) {
+        #[cfg(not(kani))]
         self.entries.shrink_to(min_capacity);
+        let _ = min_capacity;
     }
     pub fn shrink_to_fit(&mut self) {
+        #[cfg(not(kani))]
         self.entries.shrink_to_fit();
     }
     pub fn values(&self) -> impl Iterator<Item = &V> {
